@@ -167,8 +167,8 @@ enum Want {
 }
 
 #[derive(Clone, Debug)]
-struct Snip {
-    src: String,
+pub struct Snip {
+    pub src: String,
     want: Want,
     position: &'static str,
     req: String,
@@ -595,7 +595,7 @@ fn constructible(ty: &Ty) -> bool {
     Wit::default().expr(ty, true).is_some()
 }
 
-fn gen_infer(t: &mut Tape, n: usize) -> Option<Snip> {
+pub fn gen_infer(t: &mut Tape, n: usize) -> Option<Snip> {
     let kind = t.below(5);
     let bd = 1 + t.below(3) as u32;
     let base = if t.bool() {
@@ -721,7 +721,7 @@ fn gen_infer(t: &mut Tape, n: usize) -> Option<Snip> {
     }
 }
 
-fn gen_near(t: &mut Tape, n: usize) -> Option<Snip> {
+pub fn gen_near(t: &mut Tape, n: usize) -> Option<Snip> {
     let vars = t.below(3) == 0;
     let rd = 1 + t.below(3) as u32;
     let req = rand_ty(t, rd, vars);
